@@ -348,6 +348,11 @@ def _values_equal_elems(repo, Z):
 
 # ---------------------------------------------------------------------------
 # effects of _collect_vars / _uncollect_vars on the aggregates
+# set / dict methods that return a new object and leave the receiver unchanged
+_PURE_SET_METHODS = {'difference', 'union', 'intersection', 'symmetric_difference', 'copy', 'issubset', 'issuperset',
+                     'isdisjoint', 'keys', 'values', 'items', 'get'}
+
+
 class Eff:
     def __init__(self, kind, agg, key, val, guard, conds, node, text):
         self.kind, self.agg, self.key, self.val = kind, agg, key, val
@@ -371,6 +376,7 @@ class LevelFn:
         self.effects = []
         self.prunes = []       # (agg, key) deletions of emptied entries
         self.bad_prunes = []   # conditional deletions whose condition is not `the entry is empty`
+        self.discarded = []    # (agg, method, stmt): non-mutating set/dict method used as a statement
         self._scan()
 
     # -- recognisers ------------------------------------------------------
@@ -539,6 +545,9 @@ class LevelFn:
                             self._emit('del', a, self.absval(t.slice, st, env), None, st)
                     elif self.agg_of(t, st) is not None and not isinstance(t, ast.Name):
                         raise AnalysisError(f"{self.qual}: aggregate deleted in `{norm(st)}`")
+            elif isinstance(st, ast.Expr) and isinstance(st.value, ast.BinOp) and isinstance(st.value.op, (ast.Sub, ast.BitOr, ast.BitAnd)) \
+                    and self.agg_of(st.value.left, st) is not None:
+                self.discarded.append((self.agg_of(st.value.left, st), {ast.Sub: '-', ast.BitOr: '|', ast.BitAnd: '&'}[type(st.value.op)], st))
             elif isinstance(st, ast.Expr) and isinstance(st.value, ast.Call) and isinstance(st.value.func, ast.Attribute):
                 call = st.value
                 recv, meth = call.func.value, call.func.attr
@@ -555,9 +564,19 @@ class LevelFn:
                 if meth == 'update' and len(args) == 1:
                     v = self.absval(args[0], st, env)
                     if key is None and kind_decl in ('dict', 'defaultdict'):
-                        if v[0] != 'field':
+                        dc = args[0]
+                        if v[0] == 'field':
+                            self._emit('assign', a, ('key', v[1]), ('item', v[1], v[1]), st)
+                        elif isinstance(dc, ast.DictComp) and len(dc.generators) == 1 and isinstance(dc.generators[0].iter, ast.Call) \
+                                and isinstance(dc.generators[0].iter.func, ast.Attribute) and dc.generators[0].iter.func.attr == 'items' \
+                                and self.src_of(dc.generators[0].iter.func.value, st) and isinstance(dc.generators[0].target, ast.Tuple) \
+                                and norm(dc.key) == norm(dc.generators[0].target.elts[0]):
+                            Y = self.src_of(dc.generators[0].iter.func.value, st)
+                            vv = norm(dc.generators[0].target.elts[1])
+                            val = ('item', Y, Y) if norm(dc.value) == vv else ('other', norm(dc.value))
+                            self._emit('assign', a, ('key', Y), val, st)
+                        else:
                             raise AnalysisError(f"{self.qual}: dict.update operand outside the domain: {norm(st)}")
-                        self._emit('assign', a, ('key', v[1]), ('item', v[1], v[1]), st)
                     else:
                         self._emit('union', a, k, v, st)
                 elif meth == 'add' and len(args) == 1:
@@ -568,6 +587,9 @@ class LevelFn:
                     self._emit('diff', a, k, ('single', self.absval(args[0], st, env)), st)
                 elif meth == 'pop' and key is None and args:
                     self._emit('del', a, self.absval(args[0], st, env), None, st)
+                elif meth in _PURE_SET_METHODS:
+                    # non-mutating: the result of the expression statement is thrown away, the aggregate is unchanged
+                    self.discarded.append((a, meth, st))
                 else:
                     raise AnalysisError(f"{self.qual}: method call on an aggregate outside the domain: {norm(st)}")
 
@@ -734,6 +756,13 @@ def rule_inverse(repo):
                 why = f"{rems.qual} never removes from {a.agg}"
             r.bad(m, adds.qual, a.text, f"{why}: after replace_component {a.agg} still holds the removed component's "
                   f"entries, so the metadata differs from a fresh build", a.node.lineno)
+        for lf_, which in ((adds, 'add'), (rems, 'remove')):
+            for agg_, meth_, st_ in (lf_.discarded if lf_ else []):
+                mm_, _, _ = (cmap if which == 'add' else umap)[cname]
+                r.bad(mm_, lf_.qual, f"result of {agg_}.{meth_}(...) discarded" if meth_.isalpha() else f"result of {agg_} {meth_} ... discarded",
+                      f"`{norm(st_)}` is a non-mutating operation used as a statement: it builds a new set and throws it away, "
+                      f"{agg_} is left unchanged (use the mutating form: difference_update / update / -= / |=), so the component's "
+                      f"entries are not {'added to' if which == 'add' else 'removed from'} {agg_}", st_.lineno)
         for x in r_eff:
             if id(x) in used:
                 continue
@@ -764,7 +793,7 @@ def rule_inverse(repo):
         else:
             r.ok(m, qual, cons)
     r.evaluations = sum(len(v) for v in add_by_agg.values()) * max(1, sum(len(v) for v in rem_by_agg.values()))
-    r.require_floor(33)
+    r.require_floor(37)
     return r
 
 
@@ -808,11 +837,53 @@ def _bindings(fn, name):
     return out
 
 
+def _collector_scope(repo, name, depth=0):
+    """'subtree' / 'local' / None for a method of Component's MRO that collects objects with a filter:
+    subtree = its work list descends into the __dict__ of the NamedObjects it pops; local = it only looks at the
+    receiver's own attributes (and lists); wrappers are classified by what they return."""
+    cache = repo.__dict__.setdefault('_c15_scopes', {})
+    if name in cache:
+        return cache[name]
+    cache[name] = None
+    m, c = _component(repo)
+    hit = repo.lookup_method(m, c, name)
+    if hit is None or depth > 3:
+        return None
+    fn = hit[2]
+    me = _params(fn)[0]
+    res = None
+    loops = [n for n in walk_no_nested(fn) if isinstance(n, ast.While)]
+    pops = [st for w in loops for st in w.body if isinstance(st, ast.Assign) and isinstance(st.value, ast.Call)
+            and isinstance(st.value.func, ast.Attribute) and st.value.func.attr in ('pop', 'popleft') and isinstance(st.targets[0], ast.Name)]
+    if pops:
+        u = pops[0].targets[0].id
+        descends = any(isinstance(n, ast.For) and norm(n.iter) == f"{u}.__dict__.items()" for w in loops for n in ast.walk(w))
+        own = any(isinstance(n, ast.For) and norm(n.iter) == f"{me}.__dict__.items()" for n in walk_no_nested(fn))
+        res = 'subtree' if descends else ('local' if own else None)
+    else:
+        scopes = []
+        for rt in [n for n in walk_no_nested(fn) if isinstance(n, ast.Return) and n.value is not None]:
+            v = rt.value
+            if isinstance(v, ast.Call) and isinstance(v.func, ast.Attribute) and norm(v.func.value) == me:
+                scopes.append(_collector_scope(repo, v.func.attr, depth + 1))
+            elif isinstance(v, (ast.SetComp, ast.ListComp)) and len(v.generators) == 1 and \
+                    (_dsl_attr(v.generators[0].iter) or ('', ''))[1] == 'all_named_objects':
+                scopes.append('subtree')         # the whole elaborated design (only available at the top)
+            else:
+                scopes.append(None)
+        if scopes and None not in scopes:
+            res = 'local' if 'local' in scopes else 'subtree'
+    cache[name] = res
+    return res
+
+
 class SetDom:
     """set-valued locals as frozensets of atoms
        ('coll', root, Class)              objects of Class collected from the subtree of `root`
        ('fieldof', F, atoms)              union of x._dsl.F over x in atoms
     None = unknown."""
+    repo = None      # set by the rules: needed to classify accessor methods by their source
+
     def __init__(self, fn):
         self.fn = fn
         self._busy = set()
@@ -828,6 +899,12 @@ class SetDom:
                 isinstance(call.args[0], (ast.List, ast.Tuple)) and index < len(call.args[0].elts):
             cl = _lambda_classes(call.args[0].elts[index])
             return None if cl is None else frozenset(('coll', root, c) for c in cl)
+        # other members of the accessor family: scope derived from their source
+        if index is None and call.args and SetDom.repo is not None and isinstance(call.func.value, ast.Name):
+            scope = _collector_scope(SetDom.repo, call.func.attr)
+            cl = _lambda_classes(call.args[0])
+            if scope and cl:
+                return frozenset(('coll' if scope == 'subtree' else 'local', root, c) for c in cl)
         return None
 
     def of(self, e, at=None):
@@ -862,6 +939,9 @@ class SetDom:
                 if da and da[0] == c.generators[0].target.id and base is not None:
                     return head | frozenset([('fieldof', da[1], base)])
             return None
+        if isinstance(e, ast.Call) and isinstance(e.func, ast.Name) and e.func.id in ('set', 'list', 'frozenset', 'tuple', 'sorted') \
+                and len(e.args) == 1 and not isinstance(e.args[0], ast.Starred):
+            return self.of(e.args[0], at)          # the same objects in another container
         if isinstance(e, ast.Call):
             if norm(e) == 'set()':
                 return frozenset()
@@ -907,6 +987,8 @@ def _fmt_atoms(s, roots=True):
     for a in sorted(s, key=repr):
         if a[0] == 'coll':
             out.append(f"{a[2]}@{a[1]}" if roots else a[2])
+        elif a[0] == 'local':
+            out.append(f"own-attributes-only {a[2]}@{a[1]}" if roots else f"own-attributes-only {a[2]}")
         else:
             out.append(f"{a[1]}-of({_fmt_atoms(a[2], roots)})")
     return '{' + ', '.join(out) + '}'
@@ -1159,6 +1241,7 @@ def _key_eval(e, env):
 
 
 def rule_sites(repo):
+    SetDom.repo = repo
     r = RuleResult('R-C15-sites', "_add_component and _delete_component maintain all_components / all_signals / "
                    "all_method_ports / all_named_objects over the same classes of objects (and the classes elaboration "
                    "puts there), and call _collect_vars / _uncollect_vars for the same set of components")
@@ -1180,12 +1263,21 @@ def rule_sites(repo):
         rset = frozenset().union(*[s for s, _ in R]) if R else frozenset()
         for s, st in A:
             for a in s:
-                if a[0] != 'coll' or a[1] != new_obj:
+                if a[0] == 'local':
+                    r.bad(m, ADD_QUAL, f"{agg}: {a[2]} objects added over the own attributes of the new component only",
+                          f"`{norm(st)}` adds a set collected from the attributes of `{a[1]}` itself; {a[2]} objects nested deeper in "
+                          f"the new component never reach {agg}", st.lineno)
+                elif a[0] != 'coll' or a[1] != new_obj:
                     r.bad(m, ADD_QUAL, norm(st), f"{agg} is extended with {_fmt_atoms(s)}, not with objects collected "
                           f"from the new component `{new_obj}`", st.lineno)
         for s, st in R:
             for a in s:
-                if a[0] != 'coll' or a[1] != old_obj:
+                if a[0] == 'local':
+                    r.bad(m, DEL_QUAL, f"{agg}: {a[2]} objects removed over the own attributes of the removed component only",
+                          f"`{norm(st)}` subtracts a set collected from the attributes of `{a[1]}` itself (the accessor does not descend "
+                          f"into its sub-components / interfaces), while _add_component inserts and elaboration collects the whole "
+                          f"subtree: {a[2]} objects nested deeper in the removed component stay in {agg} after replace_component", st.lineno)
+                elif a[0] != 'coll' or a[1] != old_obj:
                     r.bad(m, DEL_QUAL, norm(st), f"{agg} is reduced by {_fmt_atoms(s)}, not by objects collected "
                           f"from the removed component `{old_obj}`", st.lineno)
         ca, cr = _classes(aset), _classes(rset)
@@ -1534,7 +1626,7 @@ def rule_sites(repo):
               f"the two collectors enumerate the hierarchy differently ({', '.join(f'{k}: {ta[k]} vs {tb[k]}' for k in diff)}); "
               f"the sets added by _add_component and removed by _delete_component are computed by "
               f"different collectors and would no longer cover the same objects", 0)
-    r.require_floor(17)
+    r.require_floor(30)
     return r
 
 
@@ -1657,6 +1749,7 @@ def _registry_key_fields(repo):
 
 
 def rule_keys(repo):
+    SetDom.repo = repo
     r = RuleResult('R-C15-keys', "every key the additive half inserts into a keyed aggregate is deleted by the subtractive "
                    "half: graph nodes with their back edges, every set excluded from back-edge removal is itself deleted, "
                    "emptied defaultdict entries are pruned")
@@ -1865,6 +1958,11 @@ def rule_keys(repo):
         if filt and not fed:
             r.bad(m, DEL_QUAL, f"`{S}` used as a filter but never filled", f"`{S}` stays empty, so `{norm(filt[0])}` filters "
                   f"nothing: objects that belong to the removed subtree are treated as surviving neighbours", filt[0].lineno)
+    # a registry set built in ONE expression (comprehension / union(*...)) is complete as soon as it is bound
+    for S in sorted({c.comparators[0].id for c in filters if isinstance(c.comparators[0], ast.Name)} - set(built)):
+        sv0 = dom.of(ast.Name(id=S, ctx=ast.Load()))
+        if sv0 and any(a[0] == 'fieldof' for a in sv0) and len([b for b in _bindings(fn, S) if b[0] == 'assign']) == 1:
+            r.ok(m, DEL_QUAL, f"`{S}` is complete before it is used (built in one expression)")
     for S in built:
         fills = [st for k, st, v, op in _bindings(fn, S) if k == 'aug']
         fill_nodes = {id(x) for f in fills for x in ast.walk(f)}
@@ -1911,7 +2009,7 @@ def rule_keys(repo):
                           f"`{e.text}` empties the set but the key (an object of the removed component) stays in "
                           f"{e.agg}: get_all_explicit_constraints() shows a `<deleted>` key with an empty set that a "
                           f"fresh build does not have; prune it (`if not {e.agg}[k]: del ...`)", e.node.lineno)
-    r.require_floor(6)
+    r.require_floor(16)
     return r
 
 
@@ -2005,6 +2103,7 @@ def _list_builds(fn, e, depth=0):
 
 
 def rule_saved(repo):
+    SetDom.repo = repo
     r = RuleResult('R-C15-saved', "each saved_* list is filtered from one map of the parent by membership in the removed "
                    "connectables, the saved entries are purged from that map, returned, passed by both replace variants and "
                    "re-inserted by _add_component into the map of the same name under an eval-able root name")
@@ -2608,7 +2707,7 @@ def rule_saved(repo):
                       f"(scheduling constraints differ from a fresh build)", ac[0].lineno)
             else:
                 r.ok(m, qual, cons + f" -> {consume[p][1]}")
-    r.require_floor(34)
+    r.require_floor(59)
     return r
 
 
@@ -2978,7 +3077,7 @@ def rule_names(repo):
     _set_parents(probe)
     if [n for n, _ in _unresolved(repo, m, probe.body[0])] != ['Zzz']:
         raise AnalysisError("name-resolution probe failed")
-    r.require_floor(55)
+    r.require_floor(71)
     return r
 
 
@@ -3183,7 +3282,7 @@ def rule_flush(repo):
         r.ok(m, 'Component.check', '_check_valid_dsl_code()', nontrivial=False)
     else:
         r.bad(m, 'Component.check', '_check_valid_dsl_code()', "check() no longer runs the structural checks", cf.lineno)
-    r.require_floor(16)
+    r.require_floor(29)
     return r
 
 
@@ -3307,6 +3406,16 @@ MUTANTS = [
        'R-C15-saved'),
     _m('R4d-purge-rebinds-instead-of-in-place', COMP, "        top._dsl.all_upblk_calls[blk] -= to_save\n",
        "        top._dsl.all_upblk_calls[blk] = top._dsl.all_upblk_calls[blk] - to_save\n", 'R-C15-saved'),
+    _m('seed-difference-result-discarded', L1, "      s._dsl.all_U_U_constraints -= m._dsl.U_U_constraints",
+       "      s._dsl.all_U_U_constraints.difference( m._dsl.U_U_constraints )", 'R-C15-inverse'),
+    _m('collect-union-result-discarded', L4, "      s._dsl.all_M_constraints |= m._dsl.M_constraints",
+       "      s._dsl.all_M_constraints.union( m._dsl.M_constraints )", 'R-C15-inverse'),
+    _m('seed-interfaces-removed-from-own-attributes-only', COMP,
+       "      removed_interfaces = foo._collect_all_single( lambda x: isinstance( x, Interface ) )",
+       "      removed_interfaces = set( foo.get_local_object_filter( lambda x: isinstance( x, Interface ) ) )", 'R-C15-sites'),
+    _m('spawned-signals-from-own-attributes-only', COMP,
+       "spawned_signals = obj._collect_all_single( lambda x: isinstance( x, Signal ) ) - added_signals",
+       "spawned_signals = set( obj.get_local_object_filter( lambda x: isinstance( x, Signal ) ) ) - added_signals", 'R-C15-sites'),
     # --- pairing of collect / uncollect
     _m('l1-uu-constraints-not-removed', L1, "      s._dsl.all_U_U_constraints -= m._dsl.U_U_constraints", "      pass", 'R-C15-inverse'),
     _m('l4-once-subtracts-wrong-set', L4, "s._dsl.all_update_once   -= m._dsl.update_once",
@@ -3883,6 +3992,16 @@ EQUIV = [
 
     top._add_component( parent, foo_name, foo_indices, new_obj, *saved )
 """),
+    _m('l1-set-methods-all-mutating', L1, """      s._dsl.all_upblks -= m._dsl.upblks
+      for k in m._dsl.upblks:
+        del s._dsl.all_upblk_hostobj[ k ]
+      s._dsl.all_U_U_constraints -= m._dsl.U_U_constraints""", """      s._dsl.all_upblks.difference_update( m._dsl.upblks )
+      for k in m._dsl.upblks:
+        s._dsl.all_upblk_hostobj.pop( k )
+      s._dsl.all_U_U_constraints.difference_update( m._dsl.U_U_constraints )"""),
+    _m('interfaces-removed-through-public-subtree-accessor', COMP,
+       "      removed_interfaces = foo._collect_all_single( lambda x: isinstance( x, Interface ) )",
+       "      removed_interfaces = set( foo.get_all_object_filter( lambda x: isinstance( x, Interface ) ) )"),
     _m('add-sets-via-update', COMP, "    top._dsl.all_signals       |= added_signals", "    top._dsl.all_signals.update( added_signals )"),
 ]
 
